@@ -17,6 +17,11 @@
 -/
 import Lc.Lemmas.MountShape
 import Lc.Lemmas.Expand
+import Lc.Lemmas.KernelProbe
+import Lc.Lemmas.MountKernel
+import Lc.Lemmas.MountArgs
+import Lc.Lemmas.MountTwice
+import Lc.Lemmas.InputBytes
 
 namespace Lc.Props.C01
 open Lc Lc.Layers Lc.Mountinfo Lc.Trace Lc.MountTrace Lc.Expand
@@ -314,8 +319,9 @@ theorem mountCmd_targets_unmounted (cfg : Config) (d : Defs) (name : Bytes) (w :
     mount on the build path (derived layer) and on every expanded mountpoint, then `mountOne`
     issues no mount call at all (any exit).
     PARTIAL: the hypothesis speaks about the cache; that the cache is in this state after a
-    successful earlier `mount` of the same layer needs the kernel model and the probe
-    round-trip (`Kernel.probe (kmount …)`), not proved here — the oracle checks it on runs. -/
+    successful earlier `mount` of the same layer is `mountOne_establishes_cache`, and the
+    statement about two runs of the command without a cache hypothesis is `mount_idempotent`
+    (both below, through the kernel model and the probe round-trip). -/
 theorem mount_idempotent_partial (cfg : Config) (d : Defs) (name : Bytes) (w : World) (s : List Op)
     (h : Emitted (mountOne cfg d name) w s)
     (hov : ∀ l, findLayer d name = some l → l.base.length > 0 → getMount d.mounts (buildPath cfg l) ≠ none)
@@ -408,6 +414,292 @@ example : MountOneN cfg0 d0 b!"x"
 example : adjustPrefixedPath (b!"$$base" ++ b!"/pk") (resolver d0 lx) = .ok b!"/b/L/b0/pk" := by rfl
 example : BaseChain d0 ([] ++ [lb] ++ [lx]) b!"x" :=
   BaseChain.snoc (l := lx) rfl (by decide) (BaseChain.snoc (l := lb) rfl (by decide) (BaseChain.nil rfl))
+end Example
+
+/-! ## The kernel table, its probe, and idempotence
+
+  `Kernel.probe t` renders the kernel-table model as /proc/self/mountinfo text and parses it
+  with the model of `fs.ProbeMounts`; C12 proves that parser against the kernel's escaping.
+  The theorems below connect the three (`probe_sees_table`, `kmount_then_probe`), show what a
+  successful `mountOne` leaves in the kernel table and in the cache it returns
+  (`mountOne_mounts_all`, `mountOne_establishes_cache`), and compose them over the chain and
+  over two consecutive runs of the command (`mount_idempotent`). -/
+
+open Lc.Kernel Lc.KernelProbe Lc.MountKernel Lc.MountArgs Lc.Spec Lc.MountChain Lc.InputBytes Lc.FsGrow
+
+/-- **probe_sees_table**: for every well-formed kernel table (device numbers and types are
+    tokens; root, mountpoint, source, overlay directories any byte strings; no overlay workdir
+    ending in CR) the probe succeeds, and `GetMount` on the result finds a mount at a path
+    exactly when the table has a mount with that mountpoint; with stacked mounts it reports the
+    topmost (latest) one, with its type, device, root and overlay directories. -/
+theorem probe_sees_table {t : KTable} (h : KWF t) :
+    ∃ M, Kernel.probe t = .ok M ∧
+      (∀ mp, getMount M mp = none ↔ topmostAt t.mnts mp = none) ∧
+      (∀ mp km, topmostAt t.mnts mp = some km → ∃ e, getMount M mp = some e ∧ Reports e km) :=
+  KernelProbe.probe_sees_table h
+
+/-- `kmount` keeps a well-formed table well-formed (remounts and propagation changes need no
+    condition: they do not change the table) -/
+theorem kmount_keeps_wf {t t' : KTable} {src tgt fstype : Bytes} {flags : Nat} {data : Bytes}
+    (ht : KWF t) (ha : isStructural flags = true → ArgsOK src tgt fstype flags data)
+    (h : kmount t src tgt fstype flags data = .ok t') : KWF t' :=
+  kmount_wf' ht ha h
+
+/-- **kmount_then_probe**: after a successful `mount(2)` on a well-formed table the probe of
+    the new table succeeds and shows a mount at the target; every mountpoint the probe of the
+    old table showed is still shown; for an overlay mount the entry found has type "overlay"
+    and the lower/upper/work directories the option parser reads from the mount data. -/
+theorem kmount_then_probe {t t' : KTable} {src tgt fstype : Bytes} {flags : Nat} {data : Bytes}
+    (ht : KWF t) (ha : isStructural flags = true → ArgsOK src tgt fstype flags data)
+    (h : kmount t src tgt fstype flags data = .ok t') :
+    ∃ M e, Kernel.probe t' = .ok M ∧ getMount M tgt = some e ∧ e.mountpoint = tgt ∧
+      (∀ M0 mp, Kernel.probe t = .ok M0 → getMount M0 mp ≠ none → getMount M mp ≠ none) ∧
+      (isStructural flags = true → hasFlag flags MS_BIND = false → fstype = b!"overlay" →
+        e.fstype = b!"overlay" ∧ e.source = (parseOverlayOpts data).lower ∧
+        e.source2 = (parseOverlayOpts data).upper ∧ e.workdir = (parseOverlayOpts data).work) := by
+  have ht' := kmount_wf' ht ha h
+  obtain ⟨M, hM, hnone, hsome⟩ := KernelProbe.probe_sees_table ht'
+  have hhas := kmount_has h
+  rw [hasMount_iff_topmost] at hhas
+  cases hk : topmostAt t'.mnts tgt with
+  | none => exact absurd hk hhas
+  | some km =>
+    obtain ⟨e, he, hr⟩ := hsome tgt km hk
+    obtain ⟨_, _, _, hmp, _⟩ := topmostAt_some hk
+    refine ⟨M, e, hM, he, hr.mountpoint.trans hmp, ?_, ?_⟩
+    · intro M0 mp hM0 hg
+      rw [probe_getMount_iff ht' hM]
+      exact (kmount_ext h).hasMount ((probe_getMount_iff ht hM0 mp).mp hg)
+    · intro hs hb hf
+      obtain ⟨km', hk', h1, _, h3, h4, h5⟩ := kmount_overlay_top hs hb hf h
+      rw [hk] at hk'
+      cases hk'
+      obtain ⟨e1, e2, e3⟩ := hr.overlay h1
+      exact ⟨hr.fstype.trans h1, e1.trans h3, e2.trans h4, e3.trans h5⟩
+
+namespace Example
+/-- host table: / on ext4, /dev on devtmpfs -/
+def kt0 : KTable := { mnts := [⟨1, 0, b!"8:1", [47], [47], b!"ext4", b!"/dev/sda", [], [], []⟩,
+                               ⟨2, 1, b!"0:5", [47], b!"/dev", b!"devtmpfs", b!"devtmpfs", [], [], []⟩] }
+
+end Example
+
+theorem Example.kt0_wf : KWF Example.kt0 := by
+  intro m hm
+  simp only [Example.kt0, List.mem_cons, List.not_mem_nil, or_false] at hm
+  rcases hm with rfl | rfl <;> constructor <;> simp [TokenOK, IsB]
+
+namespace Example
+/-- the overlay mount of layer x below a base path with a blank: hypotheses of
+    `kmount_then_probe` hold and the call succeeds -/
+def ovArgs : Bytes := b!"lowerdir=/my b/L/b0/build,upperdir=/my b/L/x/upper,workdir=/my b/L/x/work"
+end Example
+
+theorem Example.ovArgs_ok : ArgsOK b!"overlay" b!"/my b/L/x/build" b!"overlay" 0 Example.ovArgs := by
+  refine ⟨by simp [IsB], by simp [IsB], fun _ => by simp [TokenOK], by simp [IsB, Example.ovArgs], by decide⟩
+
+namespace Example
+
+example : ∃ t', kmount kt0 b!"overlay" b!"/my b/L/x/build" b!"overlay" 0 ovArgs = .ok t' ∧
+    ∃ M e, Kernel.probe t' = .ok M ∧ getMount M b!"/my b/L/x/build" = some e ∧
+      e.source = b!"/my b/L/b0/build" ∧ e.workdir = b!"/my b/L/x/work" ∧ getMount M b!"/dev" ≠ none := by
+  refine ⟨_, rfl, ?_⟩
+  obtain ⟨M, e, hM, he, _, hmono, hov⟩ := kmount_then_probe kt0_wf (fun _ => ovArgs_ok) rfl
+  obtain ⟨_, h2, _, h4⟩ := hov (by decide) (by decide) rfl
+  obtain ⟨M0, hM0, hn, _⟩ := probe_sees_table kt0_wf
+  refine ⟨M, e, hM, he, h2.trans (by decide), h4.trans (by decide), hmono M0 _ hM0 ?_⟩
+  rw [Ne, hn]
+  decide
+end Example
+
+/-- **mountOne_mounts_all**: after a successful `mountOne` that is not pretending, started with
+    a cache that shows no mountpoint the kernel table does not have, the kernel table of the
+    resulting world carries a mount on the build path (derived layer) and on every expanded
+    import mountpoint of the layer; it lost no entry. -/
+theorem mountOne_mounts_all (cfg : Config) (d : Defs) (name : Bytes) (w w' : World) (d' : Defs)
+    (hp : w.pretend = false) (hrun : (mountOne cfg d name).run.run w = (.ok d', w'))
+    (hcache : ∀ p, getMount d.mounts p ≠ none → HasMount w.kt p) :
+    Ext w.kt w'.kt ∧ ∃ l ex, findLayer d name = some l ∧ expandConfigMounts cfg d l = .ok ex ∧
+      (l.base.length > 0 → HasMount w'.kt (buildPath cfg l)) ∧ ∀ e ∈ ex, HasMount w'.kt e.mount := by
+  obtain ⟨_, hext, _, l, ex, hl, hex, hov, hit, _⟩ := mountOne_run_ok cfg d name w w' d' hp hrun
+  refine ⟨hext, l, ex, hl, hex, ?_, ?_⟩
+  · intro hb
+    rcases hov hb with hc | hm
+    · exact hext.hasMount (hcache _ hc)
+    · exact hm
+  · intro e he
+    rcases hit e he with hc | hm
+    · exact hext.hasMount (hcache _ hc)
+    · exact hm
+
+/-- **mountOne_establishes_cache**: if moreover the kernel table is well-formed and the layer
+    records are byte strings (`DefsOK`), the table stays well-formed, the cache `mountOne`
+    returns is the probe of the final table, it shows a mount exactly where the table has one,
+    and therefore it shows a mount on the build path (derived layer) and on every expanded
+    import mountpoint — the hypotheses of `mount_idempotent_partial` for the next `mountOne`
+    of this layer. -/
+theorem mountOne_establishes_cache (cfg : Config) (d : Defs) (name : Bytes) (w w' : World) (d' : Defs)
+    (hp : w.pretend = false) (hrun : (mountOne cfg d name).run.run w = (.ok d', w'))
+    (hcache : ∀ p, getMount d.mounts p ≠ none → HasMount w.kt p)
+    (hwf : KWF w.kt) (hd : DefsOK cfg d) :
+    KWF w'.kt ∧ Kernel.probe w'.kt = .ok d'.mounts ∧
+    (∀ p, getMount d'.mounts p ≠ none ↔ HasMount w'.kt p) ∧
+    ∃ l ex, findLayer d name = some l ∧ expandConfigMounts cfg d l = .ok ex ∧
+      (l.base.length > 0 → getMount d'.mounts (buildPath cfg l) ≠ none) ∧
+      ∀ e ∈ ex, getMount d'.mounts e.mount ≠ none := by
+  obtain ⟨_, _, hprobe, _⟩ := mountOne_run_ok cfg d name w w' d' hp hrun
+  obtain ⟨_, l, ex, hl, hex, hov, hit⟩ := mountOne_mounts_all cfg d name w w' d' hp hrun hcache
+  have hwf' : KWF w'.kt := by
+    have := Hoare.extract KW _ (mountOne_kw hd name) w hwf
+    rw [hrun] at this
+    exact this
+  have hiff := fun p => probe_getMount_iff hwf' hprobe p
+  exact ⟨hwf', hprobe, hiff, l, ex, hl, hex, fun hb => (hiff _).mpr (hov hb),
+    fun e he => (hiff _).mpr (hit e he)⟩
+
+/-- **mount_complete** (the first run, whole command): a successful `mountCmd` that is not
+    pretending, on a well-formed kernel table, with well-formed layer records and a cache that
+    shows no mountpoint the table does not have, leaves a mount on the build path of every
+    derived layer and on every configured import mountpoint of every layer of the base chain
+    (root base layer … named layer); kernel table and tree only gained entries. -/
+theorem mount_complete (cfg : Config) (d d' : Defs) (name : Bytes) (w w' : World)
+    (hp : w.pretend = false) (hwf : KWF w.kt) (hd : DefsOK cfg d)
+    (hcache : ∀ p, getMount d.mounts p ≠ none → HasMount w.kt p)
+    (h : (mountCmd cfg d name).run.run w = (.ok d', w')) :
+    KWF w'.kt ∧ Ext w.kt w'.kt ∧ FsExt w.fs w'.fs ∧ ∃ chain, BaseChain d chain name ∧
+      ∀ a ∈ chain, ∀ l, findLayer d a.name = some l →
+        (l.base.length > 0 → HasMount w'.kt (buildPath cfg l)) ∧
+        ∀ m ∈ l.cmounts, HasMount w'.kt (pathJoin [buildPath cfg l, m.mount]) := by
+  obtain ⟨_, hwf', hk, chain, hc, hpts⟩ := MountTwice.mountCmd_first hp hwf hd hcache h
+  exact ⟨hwf', hk.2.1, hk.2.2, chain, hc, hpts⟩
+
+/-- **mount_idempotent**: for every configuration, in-use map, layer name and world `w`: if
+    `layercake mount name` succeeds from `w`, then running the same command again from the
+    resulting world `w1` issues no mount operation — whatever the second run returns, what it
+    appends to the trace contains no `Op.mount` (only directory creation and export links can
+    occur) — and leaves the kernel mount table as it is.
+    Hypotheses, all about the inputs of the FIRST run: the kernel table is well-formed as the
+    kernel prints it (`KWF`: device numbers and types are tokens, paths any byte strings, no
+    overlay workdir ending in CR), and `InputsOK`: configuration paths, tree paths and file
+    contents are byte strings (representation invariant of `Bytes = List Nat`), and no layer's
+    overlay workdir read back from the mount data ends in a carriage return (C12's recorded
+    finding `mountinfo-cr-at-line-end`; `workCR_of_plain` gives a plain sufficient condition).
+    No condition on the layerconfig contents: duplicate, nested or escaping import mountpoints
+    (finding `mount-config-not-sane`) do not affect idempotence.  Pretend mode, fault and crash
+    switches are covered: under `-p` neither run attempts anything; a first run that hit the
+    injected fault did not succeed. -/
+theorem mount_idempotent (cfg : Config) (inuse : List (Bytes × List User)) (name : Bytes)
+    (w w1 : World) (d1 : Defs) (hrun : run cfg inuse (.mount name) w = (.ok d1, w1))
+    (hwf : KWF w.kt) (hin : InputsOK cfg w) :
+    (run cfg inuse (.mount name) w1).2.kt = w1.kt ∧
+    ∃ s, Emitted (runCmd cfg inuse (.mount name)) w1 s ∧ ∀ op ∈ s, isMountOp op = false :=
+  MountTwice.mount_twice hrun hwf (fun _ h => getLayers_defsOK hin h)
+
+namespace Example
+def dirs (p : List Bytes) : Fs.Tree := p.map fun x => (x, Fs.Node.dir)
+/-- base layer b0 (rbind of /dev) and derived layer x (rbind of /dev, bind of `$$base/pk`),
+    build roots populated, nothing mounted yet -/
+def fsF : Fs.Tree :=
+  dirs [b!"/", b!"/b", b!"/b/L", b!"/dev", b!"/b/L/b0", b!"/b/L/b0/build",
+        b!"/b/L/b0/build/bin", b!"/b/L/b0/build/etc", b!"/b/L/b0/build/lib", b!"/b/L/b0/build/opt",
+        b!"/b/L/b0/build/root", b!"/b/L/b0/build/sbin", b!"/b/L/b0/build/usr", b!"/b/L/b0/build/dev",
+        b!"/b/L/x", b!"/b/L/x/build", b!"/b/L/x/work", b!"/b/L/x/upper",
+        b!"/b/L/x/build/bin", b!"/b/L/x/build/etc", b!"/b/L/x/build/lib", b!"/b/L/x/build/opt",
+        b!"/b/L/x/build/root", b!"/b/L/x/build/sbin", b!"/b/L/x/build/usr", b!"/b/L/x/build/dev",
+        b!"/b/L/x/build/pk"] ++
+  [(b!"/b/L/b0/layerconfig", .file b!"import rbind /dev /dev\n"),
+   (b!"/b/L/x/layerconfig", .file b!"base b0\n\nimport rbind /dev /dev\nimport bind $$base/pk /pk\n")]
+def wF : World := { fs := fsF, kt := kt0 }
+
+end Example
+
+theorem Example.wF_inputsOK : InputsOK Example.cfg0 Example.wF :=
+  ⟨by simp [IsB, Example.cfg0], by simp [IsB, Example.cfg0], by simp [IsB, Example.cfg0],
+    by simp [IsB, Example.cfg0], treeB_of_check (by decide +kernel), by decide +kernel⟩
+
+/-- the hypotheses of `mount_idempotent` are satisfiable: `mount x` on this world succeeds (the
+    model run is evaluated by the kernel), the first run issues six mount calls (rbind + slave
+    for b0; overlay, rbind + slave, bind for x), and the theorem applies -/
+theorem Example.wF_first_run :
+    (run Example.cfg0 [] (.mount b!"x") Example.wF).1.toOption.isSome = true := by decide +kernel
+
+namespace Example
+
+example : (((run cfg0 [] (.mount b!"x") wF).2.trace.filter isMountOp).length = 6) := by decide +kernel
+
+/-- what `getLayers` returns on that world -/
+def dF : Defs := match (getLayers cfg0 []).run.run wF with
+  | (.ok d, _) => d
+  | _ => {}
+end Example
+
+theorem Example.dF_run : (getLayers Example.cfg0 []).run.run Example.wF = (.ok Example.dF, Example.wF) := by
+  have h : ((getLayers Example.cfg0 []).run.run Example.wF).1.toOption.isSome = true := by decide +kernel
+  have hd : Example.dF = match (getLayers Example.cfg0 []).run.run Example.wF with
+    | (.ok d, _) => d
+    | _ => {} := rfl
+  generalize hr : (getLayers Example.cfg0 []).run.run Example.wF = r at h hd
+  obtain ⟨res, w'⟩ := r
+  cases res with
+  | error e => simp [Except.toOption] at h
+  | ok d =>
+    obtain ⟨hw, _⟩ := MountTwice.getLayers_run hr
+    simp only [] at hd
+    rw [hd, hw]
+
+namespace Example
+/-- `mountOne_mounts_all` / `mountOne_establishes_cache` on a real run: the base layer b0 from
+    the freshly probed `Defs`; afterwards the returned cache shows the /dev import mounted -/
+example : ∃ d' w', (mountOne cfg0 dF b!"b0").run.run wF = (.ok d', w') ∧
+    HasMount w'.kt b!"/b/L/b0/build/dev" ∧ getMount d'.mounts b!"/b/L/b0/build/dev" ≠ none := by
+  have h : ((mountOne cfg0 dF b!"b0").run.run wF).1.toOption.isSome = true := by decide +kernel
+  generalize hr : (mountOne cfg0 dF b!"b0").run.run wF = r at h
+  obtain ⟨res, w'⟩ := r
+  cases res with
+  | error e => simp [Except.toOption] at h
+  | ok d' =>
+    obtain ⟨_, hprobe, _⟩ := MountTwice.getLayers_run dF_run
+    have hcache : ∀ p, getMount dF.mounts p ≠ none → HasMount wF.kt p :=
+      fun p hp => (probe_getMount_iff kt0_wf hprobe p).mp hp
+    obtain ⟨_, _, hiff, l, ex, hl, hex, _, hit⟩ := mountOne_establishes_cache cfg0 dF b!"b0" wF w' d' rfl hr
+      hcache kt0_wf (getLayers_defsOK wF_inputsOK dF_run)
+    have hl' : (findLayer dF b!"b0").map (·.cmounts) = some [⟨b!"/dev", b!"/dev", b!"rbind"⟩] := by
+      decide +kernel
+    have hex' : ∀ e ∈ ex, e.mount = b!"/b/L/b0/build/dev" := by
+      intro e he
+      obtain ⟨m, hm, hme⟩ := expand_mem hex e he
+      rw [hl] at hl'
+      simp only [Option.map_some, Option.some.injEq] at hl'
+      rw [hl'] at hm
+      simp only [List.mem_singleton] at hm
+      rw [hme.1, hm]
+      have hlp : (findLayer dF b!"b0").map (·.layerPath) = some b!"/b/L/b0" := by decide +kernel
+      rw [hl] at hlp
+      simp only [Option.map_some, Option.some.injEq] at hlp
+      unfold buildPath
+      rw [hlp]
+      decide
+    have hne : ex ≠ [] := by
+      intro e
+      have := expand_length hex
+      rw [hl] at hl'
+      simp only [Option.map_some, Option.some.injEq] at hl'
+      rw [e, hl'] at this
+      simp at this
+    obtain ⟨e, he⟩ := List.exists_mem_of_ne_nil ex hne
+    have hg := hit e he
+    rw [hex' e he] at hg
+    exact ⟨d', w', rfl, (hiff _).mp hg, hg⟩
+
+example : ∃ d1 w1, run cfg0 [] (.mount b!"x") wF = (.ok d1, w1) ∧
+    (run cfg0 [] (.mount b!"x") w1).2.kt = w1.kt ∧
+    ∃ s, Emitted (runCmd cfg0 [] (.mount b!"x")) w1 s ∧ ∀ op ∈ s, isMountOp op = false := by
+  have h := wF_first_run
+  generalize hr : run cfg0 [] (.mount b!"x") wF = r at h
+  obtain ⟨res, w1⟩ := r
+  cases res with
+  | error e => simp [Except.toOption] at h
+  | ok d1 => exact ⟨d1, w1, rfl, mount_idempotent cfg0 [] b!"x" wF w1 d1 hr kt0_wf wF_inputsOK⟩
 end Example
 
 end Lc.Props.C01
